@@ -39,6 +39,8 @@ REDIRECT = {
 REDIRECT_MEM = {
     "memcpy": "sim_memcpy", "memmove": "sim_memmove", "memset": "sim_memset", "memcmp": "sim_memcmp", "bcmp": "sim_bcmp",
     "strcmp": "sim_strcmp", "strlen": "sim_strlen", "strcpy": "sim_strcpy", "strncpy": "sim_strncpy", "strncmp": "sim_strncmp",
+    "strtok": "sim_strtok", "localtime": "sim_localtime", "gmtime": "sim_gmtime", "ctime": "sim_ctime", "asctime": "sim_asctime",
+    "strerror": "sim_strerror", "setlocale": "sim_setlocale", "qsort": "sim_qsort", "bsearch": "sim_bsearch",
     "__asan_memcpy": "sim_asan_memcpy", "__asan_memmove": "sim_asan_memmove", "__asan_memset": "sim_asan_memset",
 }
 KNOWN_UNDEFINED = set(REDIRECT.values()) | set(REDIRECT_MEM.values()) | {
